@@ -1,5 +1,6 @@
 /- Helper lemmas for the C09 models (Mpir/Model/Root.lean). -/
 import MpirProofs.Lemmas.Base
+import MpirProofs.Lemmas.Bits
 import Mpir.Model.Root
 import Mathlib.Tactic.Ring
 import Mathlib.Tactic.Linarith
@@ -1625,6 +1626,210 @@ theorem perfect_power_sound (hrr : RootremSpec) (u : Int) (h : mpzPerfectPowerP 
               have : decide (u < 0) = true := by simpa using hneg
               rw [this] at m1
               exact f2 (by simp at m1; omega)
+
+
+
+
+/-! ### mpn_perfect_square_p: the normalising final test -/
+
+/-- the third test of mpn_perfect_square_p on ANY limb vector (high zero limbs allowed, all-zero
+    included): true exactly for squares. -/
+theorem perfectSquareFinal_iff (up : List Nat) (hl : Limbs up) :
+    perfectSquareFinal up = true ↔ ∃ k, val up = k * k := by
+  obtain ⟨n1, n2, n3, -, -⟩ := Mpir.Bits.normalize_spec up
+  unfold perfectSquareFinal
+  dsimp only
+  generalize normalize up = nz at *
+  cases nz with
+  | nil =>
+    simp only [List.isEmpty_nil, if_true, true_iff]
+    exact ⟨0, by rw [← n1]; simp⟩
+  | cons x xs =>
+    have hne : (x :: xs) ≠ [] := by simp
+    have hhi : (x :: xs).getLastD 0 ≠ 0 := by
+      intro h
+      apply n2
+      rw [List.getLastD_eq_getLast?] at h
+      cases hg : (x :: xs).getLast? with
+      | none => simp at hg
+      | some v => rw [hg] at h; simp at h; rw [h]
+    have key := (sqrtrem_full (x :: xs) (n3 hl) hne hhi).2.2.2.2
+    rw [n1] at key
+    simp only [List.isEmpty_cons, Bool.false_eq_true, if_false, beq_iff_eq]
+    exact key
+
+
+
+/-! ### mpz_root & co with a local contract for mpn_rootrem; the root-is-1 exit -/
+
+/-- the contract of mpn_rootrem at one operand/index pair. -/
+def RootremAt (a k : Nat) : Prop := ∀ w,
+  (rootrem a (limbCount a) k w).1 = iroot k a ∧
+  ((rootrem a (limbCount a) k w).2 = 0 ↔ (iroot k a) ^ k = a) ∧
+  (w = true → (rootrem a (limbCount a) k w).2 = a - (iroot k a) ^ k)
+
+theorem mpzRootCore_ok_at (u : Int) (n : Nat) (w : Bool) (hloc : u ≠ 0 → 2 ≤ n → RootremAt u.natAbs n)
+    (h1 : ¬(u < 0 ∧ n % 2 = 0)) (h2 : n ≠ 0) :
+    ∃ rem : Int, mpzRootCore u n w =
+        .ok (u.sign * (iroot n u.natAbs : Nat), rem, decide ((iroot n u.natAbs) ^ n = u.natAbs)) ∧
+      (w = true → rem = u.sign * ((u.natAbs - (iroot n u.natAbs) ^ n : Nat) : Int)) := by
+  unfold mpzRootCore
+  have hn : 0 < n := Nat.pos_of_ne_zero h2
+  rw [if_neg h1, if_neg h2]
+  by_cases h3 : u = 0
+  · subst h3
+    exact ⟨0, by simp [iroot_zero n hn, h2], by simp⟩
+  · have ha : 0 < u.natAbs := Int.natAbs_pos.mpr h3
+    have hsg : (if u < 0 then (-1 : Int) else 1) = u.sign := by
+      rcases lt_trichotomy u 0 with h | h | h
+      · simp [h, Int.sign_eq_neg_one_of_neg h]
+      · exact absurd h h3
+      · simp [not_lt.mpr (le_of_lt h), Int.sign_eq_one_of_pos h]
+    rw [if_neg h3]
+    dsimp only
+    by_cases h4 : n = 1
+    · subst h4
+      exact ⟨0, by simp [hsg, iroot_one], by simp [iroot_one]⟩
+    · obtain ⟨r1, r2, r3⟩ := hloc h3 (by omega) w
+      rw [if_neg h4]
+      generalize rootrem u.natAbs (limbCount u.natAbs) n w = res at *
+      obtain ⟨root, rem⟩ := res
+      simp only at r1 r2 r3
+      subst r1
+      have hb : (rem == 0) = decide (iroot n u.natAbs ^ n = u.natAbs) := by
+        by_cases h5 : rem = 0
+        · simp [h5, r2.mp h5]
+        · have h6 : ¬ iroot n u.natAbs ^ n = u.natAbs := fun h => h5 (r2.mpr h)
+          simp [h5, h6]
+      refine ⟨u.sign * (rem : Int), ?_, fun hw => by rw [r3 hw]⟩
+      show Except.ok ((if u < 0 then (-1 : Int) else 1) * ((iroot n u.natAbs : Nat) : Int),
+        (if u < 0 then (-1 : Int) else 1) * (rem : Int), rem == 0) = _
+      rw [hsg, hb]
+
+theorem mpz_root_sign_flag_at (u : Int) (n : Nat) (hloc : u ≠ 0 → 2 ≤ n → RootremAt u.natAbs n) :
+    (u < 0 ∧ n % 2 = 0 → mpzRoot u n = .error "sqrtneg" ∧ mpzRootrem u n = .error "sqrtneg") ∧
+    (¬(u < 0 ∧ n % 2 = 0) → n = 0 → mpzRoot u n = .error "div0" ∧ mpzRootrem u n = .error "div0") ∧
+    (¬(u < 0 ∧ n % 2 = 0) → n ≠ 0 → ∃ (root rem : Int) (flag : Bool),
+        mpzRoot u n = .ok (root, flag) ∧ mpzRootrem u n = .ok (root, rem) ∧
+        root = u.sign * (iroot n u.natAbs : Nat) ∧
+        (flag = true ↔ (iroot n u.natAbs) ^ n = u.natAbs) ∧ (flag = true ↔ root ^ n = u) ∧
+        root ^ n + rem = u) := by
+  refine ⟨fun h => ?_, fun h h0 => ?_, fun h h0 => ?_⟩
+  · simp [mpzRoot, mpzRootrem, (mpzRootCore_exc u n false).1 h, (mpzRootCore_exc u n true).1 h, Except.map]
+  · simp [mpzRoot, mpzRootrem, (mpzRootCore_exc u n false).2 h h0, (mpzRootCore_exc u n true).2 h h0,
+      Except.map]
+  · obtain ⟨r0, e0, -⟩ := mpzRootCore_ok_at u n false hloc h h0
+    obtain ⟨r1, e1, hr1⟩ := mpzRootCore_ok_at u n true hloc h h0
+    have hr1 := hr1 rfl
+    have hn : 0 < n := Nat.pos_of_ne_zero h0
+    obtain ⟨s1, s2⟩ := iroot_spec n u.natAbs hn
+    generalize iroot n u.natAbs = t at *
+    refine ⟨u.sign * (t : Int), r1, decide (t ^ n = u.natAbs), ?_, ?_, rfl, by simp, ?_, ?_⟩
+    · simp [mpzRoot, e0, Except.map]
+    · simp [mpzRootrem, e1, Except.map]
+    · -- root^n = u ↔ t^n = |u|
+      rw [decide_eq_true_iff]
+      rcases lt_trichotomy u 0 with hu | hu | hu
+      · have hodd : Odd n := Nat.odd_iff.mpr (by have := Nat.mod_two_eq_zero_or_one n; omega)
+        have hab : (u.natAbs : Int) = -u := Int.ofNat_natAbs_of_nonpos (le_of_lt hu)
+        rw [Int.sign_eq_neg_one_of_neg hu, neg_one_mul, Odd.neg_pow hodd]
+        constructor
+        · intro e; have : (t : Int) ^ n = (u.natAbs : Int) := by rw [← e, Nat.cast_pow]
+          rw [this, hab]; ring
+        · intro e; have : ((t : Int)) ^ n = (u.natAbs : Int) := by rw [hab]; linarith
+          exact_mod_cast this
+      · subst hu
+        simp only [Int.natAbs_zero, Nat.le_zero] at s1
+        simp [(Nat.pow_eq_zero.mp s1).1, Nat.ne_of_gt hn]
+      · have hab : (u.natAbs : Int) = u := Int.natAbs_of_nonneg (le_of_lt hu)
+        rw [Int.sign_eq_one_of_pos hu, one_mul]
+        constructor
+        · intro e; have : (t : Int) ^ n = (u.natAbs : Int) := by rw [← e, Nat.cast_pow]
+          rw [this, hab]
+        · intro e; have : ((t : Int)) ^ n = (u.natAbs : Int) := by rw [hab]; exact e
+          exact_mod_cast this
+    · -- root^n + rem = u
+      rw [hr1]
+      have hc : ((u.natAbs - t ^ n : Nat) : Int) = (u.natAbs : Int) - (t : Int) ^ n := by
+        rw [Int.ofNat_sub s1]; push_cast; ring
+      rw [hc]
+      rcases lt_trichotomy u 0 with hu | hu | hu
+      · have hodd : Odd n := Nat.odd_iff.mpr (by have := Nat.mod_two_eq_zero_or_one n; omega)
+        rw [Int.sign_eq_neg_one_of_neg hu, neg_one_mul, Odd.neg_pow hodd,
+          Int.ofNat_natAbs_of_nonpos (le_of_lt hu)]
+        ring
+      · subst hu
+        simp only [Int.natAbs_zero, Nat.le_zero] at s1
+        simp [(Nat.pow_eq_zero.mp s1).1, Nat.ne_of_gt hn]
+      · rw [Int.sign_eq_one_of_pos hu, one_mul, one_mul, Int.natAbs_of_nonneg (le_of_lt hu)]
+        ring
+
+
+
+/-- `k ≥ bitlength(a)`: the k-th root of `a ≥ 1` is 1. -/
+theorem iroot_eq_one (a k : Nat) (ha : 0 < a) (hk : bitLen a ≤ k) (hk0 : 0 < k) : iroot k a = 1 := by
+  obtain ⟨_, b2, _⟩ := bitLen_spec a ha
+  refine (iroot_unique k a 1 hk0 (by rw [Nat.one_pow]; exact ha) ?_).symm
+  calc a < 2 ^ bitLen a := b2
+    _ ≤ 2 ^ k := Nat.pow_le_pow_right (by norm_num) hk
+
+theorem xnb_one (a k : Nat) (ha : 0 < a) (hk : bitLen a ≤ k) : (bitLen a - 1) / k + 1 = 1 := by
+  obtain ⟨_, _, b3⟩ := bitLen_spec a ha
+  rw [Nat.div_eq_of_lt (by omega)]
+
+/-- the root-is-1 exit of mpn_rootrem_internal (rootrem.c:118-138; since 4290b4f taken before any
+    temporary is allocated). -/
+theorem rootremInternal_one (a k : Nat) (ap : Bool) (ha : 0 < a) (hk : bitLen a ≤ k) :
+    rootremInternal a k ap = (1, a - 1, false) := by
+  unfold rootremInternal
+  dsimp only
+  rw [if_pos (xnb_one a k ha hk)]
+
+theorem rootremBasecase_one (a k : Nat) (ha : 0 < a) (hk : bitLen a ≤ k) :
+    rootremBasecase a k = (1, a - 1) := by
+  unfold rootremBasecase
+  dsimp only
+  rw [if_pos (xnb_one a k ha hk)]
+
+/-- mpn_rootrem with a root index at least the bit length of the operand: root 1, remainder `a − 1`,
+    on every dispatch path. -/
+theorem rootrem_one (a un k : Nat) (w : Bool) (ha : 0 < a) (hk : bitLen a ≤ k) (hun : un ≤ k) :
+    rootrem a un k w = (1, a - 1) := by
+  unfold rootrem
+  by_cases h1 : un < rootremThreshold
+  · rw [if_pos h1]; exact rootremBasecase_one a k ha hk
+  · rw [if_neg h1]
+    have h2 : ¬ ((!w && decide (un / k > 2)) = true) := by
+      have : un / k ≤ 1 := by
+        have hk0 : 0 < k := by have := bitLen_spec a ha; omega
+        rw [Nat.div_le_iff_le_mul_add_pred hk0]; omega
+      simp; intro _; omega
+    rw [if_neg h2, rootremInternal_one a k false ha hk]
+
+theorem limbCount_le_bitLen (a : Nat) (ha : 0 < a) : limbCount a ≤ bitLen a := by
+  obtain ⟨w1, w2, w3⟩ := natLimbs_wf a (by omega)
+  obtain ⟨g1, _, _⟩ := val_getLast _ w1 w2
+  rw [(val_natLimbs a).1] at g1
+  obtain ⟨_, b2, _⟩ := bitLen_spec a ha
+  unfold limbCount
+  generalize (natLimbs a).length = L at *
+  by_contra hc
+  have h1 : 1 * B ^ (L - 1) ≤ (natLimbs a).getLastD 0 * B ^ (L - 1) :=
+    Nat.mul_le_mul_right _ (Nat.pos_of_ne_zero w3)
+  have h2 : (2:Nat) ^ (L - 1) ≤ B ^ (L - 1) := Nat.pow_le_pow_left (by unfold B; norm_num) _
+  have h3 : (2:Nat) ^ bitLen a ≤ 2 ^ (L - 1) := Nat.pow_le_pow_right (by norm_num) (by omega)
+  omega
+
+
+/-- the contract of mpn_rootrem holds outright when the index is at least the operand's bit length. -/
+theorem rootremAt_huge (a k : Nat) (ha : 0 < a) (hk : bitLen a ≤ k) : RootremAt a k := by
+  have hk0 : 0 < k := by have := bitLen_spec a ha; omega
+  have h1 := iroot_eq_one a k ha hk hk0
+  intro w
+  rw [rootrem_one a (limbCount a) k w ha hk (Nat.le_trans (limbCount_le_bitLen a ha) hk), h1]
+  refine ⟨rfl, ?_, fun _ => by simp⟩
+  simp only [Nat.one_pow]
+  omega
 
 
 end Mpir.Root
